@@ -186,6 +186,24 @@ def _run_unit(scratch, u, obs, results, tier, jobs, log, extra_suffix=None):
         else:
             r.reason = "undecided: SMT query failed without a located error"
             r.raw = err[-2000:]
+    # A refutation must reproduce when the function is verified on its own: Verus shares solver state between the
+    # functions of a file, and a failure elsewhere in the unit was seen to make a sound but trigger-dependent proof of
+    # an unrelated function fail. Not reproducing => undecided (exit 2), never an alarm.
+    for o in obs:
+        r = results[o.id]
+        if r.status != "refuted":
+            continue
+        try:
+            q = subprocess.run(["verus", path, "--rlimit", rlimit, "--multiple-errors", "4", "--verify-root",
+                                "--verify-function", "*" + o.vfn],
+                               cwd=scratch.dir, env=_env(), stdout=subprocess.PIPE, stderr=subprocess.PIPE,
+                               text=True, errors="replace", timeout=tmo + 120)
+        except subprocess.TimeoutExpired:
+            continue
+        m = re.search(r"verification results:: (\d+) verified, (\d+) errors", q.stdout + q.stderr)
+        if m and int(m.group(2)) == 0 and int(m.group(1)) > 0:
+            r.status = "undecided"
+            r.reason = "undecided: the failure did not reproduce when %s was verified in isolation (unstable proof): %s" % (o.vfn, r.reason)
     return text
 
 
